@@ -41,15 +41,11 @@ def lookupL {β} (k : Bytes) : List (Bytes × β) → Option β
   | [] => none
   | (a, b) :: rest => if a = k then some b else lookupL k rest
 
-/-- an injective stand-in for `DefaultHasher` (base-257 digits) -/
-def hashInj (bs : Bytes) : Nat := bs.foldl (fun acc b => acc * 257 + b + 1) 0
-
 def Cfg.world (c : Cfg) : World :=
   { fs := fun p => (lookupL p c.fs).getD .absent
     rule := fun s => lookupL s c.rules
     sysName := c.sysName
-    ltMtime := c.mtime
-    hash := hashInj }
+    ltMtime := c.mtime }
 
 def spanEq : List Char → List Char × List Char
   | [] => ([], [])
